@@ -31,6 +31,8 @@ Definition wants_cache_x (cache_on : bool) (sfilter : N -> bool) (m : N) (x : fa
 Definition may_store_x (cache_on : bool) (sfilter : N -> bool) (m : N) (x : fatx) : bool :=
   wants_cache_x cache_on sfilter m x && (fx_len x <? size_limit) && negb (kvarn_none (fx_fat x)).
 Definition lifetime_x (x : fatx) : option N := lifetime_ms (fx_fat x).
+(** the response depends on the query ([ServerCachePreference::query_matters]) *)
+Definition qmx (x : fatx) : bool := f_spref (fx_fat x) =? SP_QUERY.
 
 (** ---- entries: every variant remembers when it was computed and stored (ghost) ---- *)
 Record variant := mkVar { v_tuple : tuple; v_resp : fatx; v_stored : N }.
@@ -79,6 +81,10 @@ Fixpoint xv_find (t : tuple) (vs : list variant) : option variant :=
   | v :: r => if tuple_eqb t (v_tuple v) then Some v else xv_find t r
   end.
 
+(** a query-dependent response may only join an entry that is keyed with the query *)
+Definition qm_key_ok (k : key) (x : fatx) : bool :=
+  negb (qmx x) || match k with KPathQuery _ _ => true | KPath _ => false end.
+
 (** remaining lifetime of the entry, capped by the lifetime of the variant pushed now *)
 Definition min_life (remaining variant_life : option N) : option N :=
   match remaining, variant_life with
@@ -109,6 +115,7 @@ Section LayerX.
   Variable fix_ovkey : bool.                                (* the insert key is built from the URI that was looked up *)
   Variable fix_clear : bool.                                (* [clear_page] also clears the default-redirect target *)
   Variable fix_svary : bool.                                (* no vary header on a stream without length in either arm *)
+  Variable fix_qmkey : bool.                                (* a query-dependent variant does not join an entry keyed by the path alone *)
   Variable sfilter : N -> bool.                             (* status filter: true = Drop *)
   Variable parse_ims : bytes -> option Z.
   Variable sanitize_ok : request -> bool.
@@ -165,7 +172,7 @@ Section LayerX.
     let rp := finishX r ov x ims_on true false in
     let remaining := option_map (fun l => l - (now - ex_created e)) (ex_life e) in
     if fix_vary then
-      if may_store_x cache_on sfilter (rq_method r) x then
+      if may_store_x cache_on sfilter (rq_method r) x && (negb fix_qmkey || qm_key_ok k x) then
         let e' := {| ex_vars := mkVar (vary_tuple r ov) x now :: ex_vars e; ex_created := now;
                      ex_life := min_life remaining (lifetime_x x) |} in
         ((xc_insert k e' c1, hs'), rp, lg)
@@ -391,7 +398,7 @@ Definition clear_alias_fix (r : request) : option request :=
 
 Record configx := mkCfgX {
   cx_base : config; cx_xhandlers : list xhandler; cx_sfilter : N; cx_ovprime : option (bytes * bytes);
-  cx_fix_vary : bool; cx_fix_ovkey : bool; cx_fix_clear : bool; cx_fix_svary : bool }.
+  cx_fix_vary : bool; cx_fix_ovkey : bool; cx_fix_clear : bool; cx_fix_svary : bool; cx_fix_qmkey : bool }.
 
 Definition d_configx (x : xval) : option configx :=
   match d_config x, x with
@@ -401,7 +408,8 @@ Definition d_configx (x : xval) : option configx :=
       let ovp := match kv_get (B "ovprime") l with Some (XL [XB n; XB p]) => Some (n, p) | _ => None end in
       match xh with
       | Some xh' => Some (mkCfgX base xh' sf ovp (negb (kv_flag (B "v0_vary") l false)) (negb (kv_flag (B "v0_ovkey") l false))
-                                 (negb (kv_flag (B "v0_clear") l false)) (negb (kv_flag (B "v0_svary") l false)))
+                                 (negb (kv_flag (B "v0_clear") l false)) (negb (kv_flag (B "v0_svary") l false))
+                                 (negb (kv_flag (B "v0_qmkey") l false)))
       | None => None
       end
   | _, _ => None
@@ -447,7 +455,7 @@ Definition x_obsx (report : list bytes) (o : obsx) : xval :=
 Definition run_cfgx (cache_on : bool) (cx : configx) (ops : list opx) : list obsx :=
   let cfg := cx_base cx in
   runX (list N) (compute_x (cf_default_ext cfg) (cf_handlers cfg) (cx_xhandlers cx)) cache_on (cf_ims cfg)
-       (cx_fix_vary cx) (cx_fix_ovkey cx) (cx_fix_clear cx) (cx_fix_svary cx)
+       (cx_fix_vary cx) (cx_fix_ovkey cx) (cx_fix_clear cx) (cx_fix_svary cx) (cx_fix_qmkey cx)
        (sfilter_fix (cx_sfilter cx)) parse_ims_fix sanitize_ok_fix
        (if cf_default_ext cfg then uri_redirect else (fun r => r))
        (override_x (cf_default_ext cfg) (cx_ovprime cx))
@@ -458,7 +466,7 @@ Definition run_cfgx (cache_on : bool) (cx : configx) (ops : list opx) : list obs
 Definition run_cfgx_state (cache_on : bool) (cx : configx) (ops : list opx) : (cachex * list N) * N :=
   let cfg := cx_base cx in
   runX_state (list N) (compute_x (cf_default_ext cfg) (cf_handlers cfg) (cx_xhandlers cx)) cache_on (cf_ims cfg)
-       (cx_fix_vary cx) (cx_fix_ovkey cx) (cx_fix_clear cx) (cx_fix_svary cx)
+       (cx_fix_vary cx) (cx_fix_ovkey cx) (cx_fix_clear cx) (cx_fix_svary cx) (cx_fix_qmkey cx)
        (sfilter_fix (cx_sfilter cx)) parse_ims_fix sanitize_ok_fix
        (if cf_default_ext cfg then uri_redirect else (fun r => r))
        (override_x (cf_default_ext cfg) (cx_ovprime cx))
